@@ -64,31 +64,33 @@ FallbackReason(ig, ix, heads, req) ==
 \*   added or modified path  -> the new version is added for that branch           (k1)
 \*   modified or deleted path -> tombstoned in all older shards (tomb) and the current
 \*                               version on EVERY branch is added again             (k2)
-\* The ignore file is not consulted (named deviation DeltaIgnoreDeviates below).
+\* The ignore file is not consulted by the code today (named deviation DeltaIgnoreDeviates).
 DeltaTomb(ix, heads, req) ==
   UNION {{p \in Changed(ix.trees[b], heads[b]) : p \in DOMAIN ix.trees[b]} : b \in ToSet(req.brs)}
 
-DeltaKeys(ix, heads, req) ==
+\* ri = TRUE: the delta build applies each branch's (unchanged) ignore file like a normal
+\* build does (proposed fix); ri = FALSE: the ignore file is not consulted (the code today)
+DeltaKeys(ig, ri, ix, heads, req) ==
   LET B  == ToSet(req.brs)
       k1 == UNION {{<<p, heads[b][p], b>> :
                       p \in Changed(ix.trees[b], heads[b]) \cap DOMAIN heads[b]} : b \in B}
       tb == DeltaTomb(ix, heads, req)
       k2 == UNION {{<<p, heads[b][p], b>> : p \in tb \cap DOMAIN heads[b]} : b \in B}
-  IN k1 \cup k2
+  IN {k \in k1 \cup k2 : ~(ri /\ Ignored(ig, heads[k[3]], k[1]))}
 
 \* Builder.Finish (IsDelta): tombstones go into every existing shard; a new shard is written
 \* only when there is at least one document
-DeltaShards(ix, heads, req) ==
+DeltaShards(ig, ri, ix, heads, req) ==
   LET tb   == DeltaTomb(ix, heads, req)
-      docs == Group(DeltaKeys(ix, heads, req))
+      docs == Group(DeltaKeys(ig, ri, ix, heads, req))
       old  == [i \in DOMAIN ix.shards |-> [ix.shards[i] EXCEPT !.tomb = @ \cup tb]]
   IN IF docs = {} THEN old ELSE Append(old, [docs |-> docs, tomb |-> {}])
 
 IsFull(ig, ix, heads, req) == ~req.delta \/ FallbackReason(ig, ix, heads, req) # "none"
 
-Index(ig, ix, heads, vers, req) ==
+Index(ig, ri, ix, heads, vers, req) ==
   [shards |-> IF IsFull(ig, ix, heads, req) THEN <<FullShard(ig, heads, req.brs)>>
-              ELSE DeltaShards(ix, heads, req),
+              ELSE DeltaShards(ig, ri, ix, heads, req),
    brs    |-> req.brs,
    trees  |-> [b \in ToSet(req.brs) |-> heads[b]],
    vers   |-> [b \in ToSet(req.brs) |-> vers[b]],
@@ -97,9 +99,9 @@ Index(ig, ix, heads, vers, req) ==
 \* the delta build adds a document a normal build would have left out: an ignore file that
 \* did not change excludes a path that was added or modified (prepareDeltaBuild only refuses
 \* when the ignore file ITSELF is part of the diff)
-DeltaIgnoreDeviates(ig, ix, heads, req) ==
+DeltaIgnoreDeviates(ig, ri, ix, heads, req) ==
   /\ ~IsFull(ig, ix, heads, req)
-  /\ \E k \in DeltaKeys(ix, heads, req) : Ignored(ig, heads[k[3]], k[1])
+  /\ \E k \in DeltaKeys(ig, ri, ix, heads, req) : Ignored(ig, heads[k[3]], k[1])
 
 \* ---------------------------------------------------------------- what a branch search shows
 \* live documents on branch b: <<shard number, document>>
